@@ -96,6 +96,7 @@ func bitrev8(k int) int { return int(bits.Reverse8(uint8(k))) }
 func c10(c *Ctx) {
 	p, r := c.P, c.R
 	r.Explanation = "C10's lattice arithmetic (NTT, Barrett reduction, Decompose, hints, packing, sampling) is value-level and NOT decided. Decided are the constants, tables, comparators and guards that KATs cannot pin for every input: " +
+		"(counter) both counter bytes of ExpandMask's SHAKE input are bytes of the same sum mu + index (little-endian IntegerToBytes(mu+r, 2)); " +
 		"(consts/zetas) q, d, degree, zeta, inv256 = 256^-1 mod q, and all 256 zetas = 1753^bitrev8(k) mod q recomputed by the checker; " +
 		"(params) the three parameter literals equal FIPS 204 Table 1 and the public-key / secret-key / signature length formulas, folded per parameter set, give 1312/2560/2420, 1952/4032/3309, 2592/4896/4627; " +
 		"(siglen) sigDecode and the key decoders accept exactly that length (folded at the length and its neighbours) before any slicing; " +
@@ -259,6 +260,7 @@ func c10(c *Ctx) {
 	c10Hint(c)
 	c10Norms(c)
 	signPrefixRule(c, "C10", []string{"signature/mldsa", "signprehash/mldsa", "signature/compositemldsa"})
+	c10Counter(c)
 }
 
 func c10Hint(c *Ctx) {
